@@ -243,7 +243,10 @@ fn check_ids(out: &mut Out, l128: &[u128], l64: &[u128]) {
         }
     }
     // odd text never panics
-    for t in ["", "g", "+1", "-1", " 1", "0x1", "é", &"f".repeat(33), &"0".repeat(40), "FFFF", "１"] {
+    for t in [
+        "", "g", "+1", "-1", " 1", "0x1", "é", &"f".repeat(33), &"0".repeat(40), "FFFF", "１",
+        &"f".repeat(255), &"0".repeat(65_536), &"é".repeat(1000), &format!("{}1", "0".repeat(4096)), &"😀".repeat(20_000),
+    ] {
         out.evaluations += 1;
         let t2 = t.to_string();
         if catch_unwind(move || (TraceId::from_str(&t2).is_ok(), SpanId::from_str(&t2).is_ok())).is_err() {
@@ -383,6 +386,31 @@ fn run(thorough: bool, out: &mut Out) {
             }
         }
     }
+    // (6) long inputs: fields of 64 / 255 / 256 / 1000 / 65536 characters (zeros, f, mixed), up to
+    //     300 fields, a 1 MB string, well-formed headers with long suffixes and prefixes
+    for n in [64usize, 255, 256, 257, 1000, 4096, 65_536] {
+        for fill in ["0", "f", "0a", "é", "-"] {
+            let long = fill.repeat(n / fill.chars().count().max(1));
+            for text in [
+                format!("00-{long}-b7ad6b7169203331-01"),
+                format!("00-0af7651916cd43dd8448eb211c80319c-{long}-01"),
+                format!("00-0af7651916cd43dd8448eb211c80319c-b7ad6b7169203331-{long}"),
+                format!("{long}-0af7651916cd43dd8448eb211c80319c-b7ad6b7169203331-01"),
+                format!("00-0af7651916cd43dd8448eb211c80319c-b7ad6b7169203331-01{long}"),
+                format!("00-0af7651916cd43dd8448eb211c80319c-b7ad6b7169203331-01-{long}"),
+                format!("{long}00-0af7651916cd43dd8448eb211c80319c-b7ad6b7169203331-01"),
+                format!("00-{}1-b7ad6b7169203331-01", "0".repeat(n)),
+                long.clone(),
+            ] {
+                check_decode(out, &text);
+            }
+        }
+    }
+    for n in [5usize, 6, 16, 64, 300] {
+        check_decode(out, &vec!["00"; n].join("-"));
+        check_decode(out, &vec!["0af7651916cd43dd8448eb211c80319c"; n].join("-"));
+    }
+    check_decode(out, &"00-".repeat(350_000));
     // three fields / two fields / one field
     for text in ["00", "00-", "00--", "00---", "00----", "-", "--", "---", "----", "00-1-2", "00-1", "-1-2-3", "00-1-2-3-", "00-1-2-3-4"] {
         check_decode(out, text);
@@ -420,7 +448,7 @@ fn main() {
         "coverage": {
             "evaluations": out.evaluations,
             "distinct_nontrivial": out.nontrivial.len(),
-            "rule": "contexts: lattice of 128-bit x 64-bit ids (0, 1, all-ones, 2^k, 2^k-1, every nibble position x value and complements) x sampled flag, encode form + decode round trip; text: every string of length <= 5 (6) over {0,1,a,F,g,-,+,space,é} and the product of per-field menus (empty, short, exact, upper-case, over-long, overflowing, non-hex, signed, non-ASCII; 1..6 fields; 11 version strings), every single-position insertion / replacement / deletion / truncation of three well-formed headers with ASCII and 2-, 3- and 4-byte characters, against an independent reference parser; ids: Display/FromStr/serde_json round trips over the lattices. distinct_nontrivial counts distinct (reference verdict, implementation verdict, field count) classes reached",
+            "rule": "contexts: lattice of 128-bit x 64-bit ids (0, 1, all-ones, 2^k, 2^k-1, every nibble position x value and complements) x sampled flag, encode form + decode round trip; text: every string of length <= 5 (6) over {0,1,a,F,g,-,+,space,é} and the product of per-field menus (empty, short, exact, upper-case, over-long, overflowing, non-hex, signed, non-ASCII; 1..6 fields; 11 version strings), every single-position insertion / replacement / deletion / truncation of three well-formed headers with ASCII and 2-, 3- and 4-byte characters, long inputs (fields of 64 .. 65536 characters, up to 300 fields, a 1 MB string), against an independent reference parser; ids: Display/FromStr/serde_json round trips over the lattices. distinct_nontrivial counts distinct (reference verdict, implementation verdict, field count) classes reached",
             "samples": out.samples,
             "exhaustive": true,
             "violation_list": out.violations,
